@@ -1,5 +1,6 @@
 import RedisVerif.Model.Conn
 import RedisVerif.Lemmas.Conn
+import RedisVerif.Lemmas.ConnWrite
 
 /-
   C04 — pipelining: exactly one reply per command, in order, however the bytes arrive.
@@ -404,5 +405,119 @@ example : ((serve cfg14 (Pool.init 1 false) [⟨[midFrame], none⟩, ⟨[stream 
     (fun o => anyProtoErr o.2)) = [false, true] ∧
   ((serve cfg14 (Pool.init 1 true) [⟨[midFrame], none⟩, ⟨[stream [cmdPing, cmdGetK]], none⟩] (seqEvents 2)).outs.map
     (fun o => anyProtoErr o.2)) = [false, false] := by decide
+
+/-! ## 4. the WRITE side: the bytes on the wire (Model/ConnWrite.lean)
+
+Sections 1–3 are about WHICH frames are executed (`Action`s).  Here the replies are encoded into
+the write buffer (`encode_resp_into` / `encode_error_into`), flushed at the end of every read by
+`write_all` + `flush`, and the peer's socket answers every `poll_write` as it likes: it takes any
+number `≥ 1` of the remaining bytes (partial writes), or returns `Ok(0)`, or fails; `poll_flush`
+may fail; a `read()` may fail.  The executor is ANY function `Exec σ` over ANY state type. -/
+
+open RedisVerif.ConnW
+
+/-- full statement, for a value `h` of `HEADER_LEN`: for every executor, every well-formed pipeline,
+    every segmentation of the READS and every segmentation of the WRITES (a peer that takes any
+    number ≥ 1 of bytes per `poll_write` and never fails), under every configuration, the byte
+    stream the client receives is exactly the concatenation of the encoded replies of the
+    commands, executed once each, in command order -/
+def C04_bytes_written (h : Nat) : Prop :=
+  ∀ (σ : Type) (ex : Exec σ) (s0 : σ) (cfg : Config), cfg.headerLen = h → cfg.codec = codec1 → 1 ≤ cfg.env.depth →
+  ∀ (cmds : List Cmd) (segs : List Bytes) (script : List WEv), segs.flatten = stream cmds →
+    Small (stream cmds) → (stream cmds).length ≤ cfg.maxBuffer → (∀ c ∈ cmds, CmdOK cfg.env c) →
+    NoFail script = true →
+    (runW cfg ex s0 script segs none).out = replyBytes ex s0 (cmds.map cmdFrame)
+
+theorem bytes_written : C04_bytes_written 14 := by
+  intro σ ex s0 cfg h14 hc hd cmds segs script h hs hmax hok hnf
+  have hrun := segmentation_independent cfg h14 hc hd cmds segs h hs hmax hok
+  have hnc : hasCrash (run cfg segs) = false := by
+    rw [hrun, ← anyCrash_eq]; exact anyCrash_execAll cmds
+  rw [runW_eq cfg ex s0 script segs hnf hnc, hrun, encActs_execAll]
+
+/-- with HEADER_LEN = 13 the byte stream lacks the reply of a consumed-and-dropped GET -/
+theorem bytes_written_header13_counterexample : ¬ C04_bytes_written 13 := by
+  intro h
+  have := h ExSt refExec ExSt.init cfg13 rfl rfl (by decide) [cmdGetK, cmdPing, cmdPing, cmdPing]
+    [stream [cmdGetK, cmdPing, cmdPing, cmdPing]] [] (by simp) (by decide) (by decide) (by decide) rfl
+  have hl : (runW cfg13 refExec ExSt.init [] [stream [cmdGetK, cmdPing, cmdPing, cmdPing]] none).out.length = 21 := by
+    decide
+  rw [this] at hl
+  exact absurd hl (by decide)
+
+/-- … hence equal to what the client receives when every command arrives alone, in its own
+    segment, under any other configuration, from a peer that takes every write whole -/
+theorem bytes_as_sent_alone (σ : Type) (ex : Exec σ) (s0 : σ) (cfg cfg' : Config)
+    (h14 : cfg.headerLen = 14) (h14' : cfg'.headerLen = 14) (hc : cfg.codec = codec1) (hc' : cfg'.codec = codec1)
+    (hd : 1 ≤ cfg.env.depth) (hd' : 1 ≤ cfg'.env.depth)
+    (cmds : List Cmd) (segs : List Bytes) (script : List WEv) (h : segs.flatten = stream cmds)
+    (hs : Small (stream cmds)) (hmax : (stream cmds).length ≤ cfg.maxBuffer) (hmax' : (stream cmds).length ≤ cfg'.maxBuffer)
+    (hok : ∀ c ∈ cmds, CmdOK cfg.env c) (hok' : ∀ c ∈ cmds, CmdOK cfg'.env c) (hnf : NoFail script = true) :
+    (runW cfg ex s0 script segs none).out = (runW cfg' ex s0 [] (cmds.map encCmd) none).out := by
+  rw [bytes_written σ ex s0 cfg h14 hc hd cmds segs script h hs hmax hok hnf,
+    bytes_written σ ex s0 cfg' h14' hc' hd' cmds (cmds.map encCmd) [] rfl hs hmax' hok' rfl]
+
+/-- a peer that fails, closes or stops at ANY point (a failed `poll_write` after any number of
+    partial writes, `Ok(0)`, a failed flush), a `read()` that fails after any number of reads: the
+    client has received a PREFIX of the correct reply stream — never a reply out of order, never a
+    reply to another command, never bytes that are not replies -/
+theorem written_is_prefix (σ : Type) (ex : Exec σ) (s0 : σ) (cfg : Config) (h14 : cfg.headerLen = 14)
+    (hc : cfg.codec = codec1) (hd : 1 ≤ cfg.env.depth)
+    (cmds : List Cmd) (segs : List Bytes) (script : List WEv) (stopAfter : Option Nat) (h : segs.flatten = stream cmds)
+    (hs : Small (stream cmds)) (hmax : (stream cmds).length ≤ cfg.maxBuffer) (hok : ∀ c ∈ cmds, CmdOK cfg.env c) :
+    (runW cfg ex s0 script segs stopAfter).out <+: replyBytes ex s0 (cmds.map cmdFrame) := by
+  have hrun := segmentation_independent cfg h14 hc hd cmds segs h hs hmax hok
+  have hnc : hasCrash (run cfg segs) = false := by
+    rw [hrun, ← anyCrash_eq]; exact anyCrash_execAll cmds
+  have := runW_prefix cfg ex s0 script segs stopAfter hnc
+  rwa [hrun, encActs_execAll] at this
+
+/-- REFINEMENT for ARBITRARY input bytes (well-formed or not): what the peer receives is (a prefix
+    of, and with a peer that never refuses exactly) the encoding of the actions of `Conn.run` —
+    every action-level theorem of sections 1–3 is a theorem about the bytes on the wire -/
+theorem written_refines_actions (σ : Type) (ex : Exec σ) (s0 : σ) (cfg : Config) (hck : cfg.checked = true)
+    (hc : cfg.codec = codec1) (hd : maxNesting + 1 ≤ cfg.env.depth) (hmax : cfg.maxBuffer < 72057594037927936)
+    (segs : List Bytes) (script : List WEv) (stopAfter : Option Nat) :
+    (runW cfg ex s0 script segs stopAfter).out <+: (encActs ex s0 (run cfg segs)).2 ∧
+    (NoFail script = true → (runW cfg ex s0 script segs none).out = (encActs ex s0 (run cfg segs)).2) := by
+  have hnc := run_no_crash cfg hck hc hd hmax segs
+  exact ⟨runW_prefix cfg ex s0 script segs stopAfter hnc, fun hnf => runW_eq cfg ex s0 script segs hnf hnc⟩
+
+/-- END TO END (with C15's `decode ∘ encode`): a client that feeds what it receives — cut into ANY
+    fragments — to the buffer loop around either decoder obtains exactly one frame per command, in
+    command order, the i-th being the reply of the i-th command (as written on the wire), with no
+    byte left over.  `ValOK`: the executor's replies are values of the reply type that fit the
+    client's stack and nest at most 32 arrays. -/
+theorem client_decodes_one_reply_per_command (σ : Type) (ex : Exec σ) (s0 : σ) (cfg : Config)
+    (h14 : cfg.headerLen = 14) (hc : cfg.codec = codec1) (hd : 1 ≤ cfg.env.depth)
+    (cmds : List Cmd) (segs : List Bytes) (script : List WEv) (h : segs.flatten = stream cmds)
+    (hs : Small (stream cmds)) (hmax : (stream cmds).length ≤ cfg.maxBuffer) (hok : ∀ c ∈ cmds, CmdOK cfg.env c)
+    (hnf : NoFail script = true)
+    (c : Codec) (hcc : c = codec1 ∨ c = codec2) (cenv : Env) (hcd : 1 ≤ cenv.depth)
+    (hex : ∀ s f p, ValOK c cenv (ex s f p).2)
+    (chunks : List Bytes) (hch : chunks.flatten = (runW cfg ex s0 script segs none).out)
+    (hsm : Small (runW cfg ex s0 script segs none).out) :
+    feedAll (fun b => (parseG c cenv b).out) FeedSt.init chunks =
+      ⟨(replyVals ex s0 (cmds.map cmdFrame)).map (fun v => Frame.val v.san), [], false⟩ ∧
+    (replyVals ex s0 (cmds.map cmdFrame)).length = cmds.length := by
+  have hb := bytes_written σ ex s0 cfg h14 hc hd cmds segs script h hs hmax hok hnf
+  rw [hb, replyBytes_eq] at hch hsm
+  refine ⟨feedAll_encoded c hcc cenv hcd _ (replyVals_ok ex _ hex _ _) chunks hch hsm, ?_⟩
+  rw [replyVals_length, List.length_map]
+
+/-- non-vacuity: `SET k v`, `GET k`, `PING` cut inside a header; the peer takes 1, 7, 2 bytes, then
+    everything; the client gets `+OK\r\n$1\r\nv\r\n+PONG\r\n` and decodes three replies from 3-byte pieces -/
+def cmdSetKV : Cmd := [[83, 69, 84], [107], [118]]
+
+example : NoFail [.accept 1, .accept 7, .accept 2] = true ∧
+    (runW cfg14 refExec ExSt.init [.accept 1, .accept 7, .accept 2]
+      [(stream [cmdSetKV, cmdGetK, cmdPing]).take 9, (stream [cmdSetKV, cmdGetK, cmdPing]).drop 9] none).out =
+      [43, 79, 75, 13, 10, 36, 49, 13, 10, 118, 13, 10, 43, 80, 79, 78, 71, 13, 10] := by decide
+
+/-- … and a peer that fails after 6 bytes has received the first reply and one byte of the second -/
+example : (runW cfg14 refExec ExSt.init [.accept 6, .fail] [stream [cmdSetKV, cmdGetK, cmdPing]] none).out =
+    [43, 79, 75, 13, 10, 36] ∧
+    (runW cfg14 refExec ExSt.init [.accept 6, .accept 0] [stream [cmdSetKV, cmdGetK, cmdPing]] none).ended = true := by
+  decide
 
 end RedisVerif.C04
